@@ -157,5 +157,5 @@ def run_ops(ctx, n, tag="ops"):
         for t, im, mo, me in zip(terms, impls, model, metas):
             if canon(im) != canon(mo[0]):
                 dis.append({"what": f"{me['kind']} gene: implementation 0x{im:016X}, model 0x{mo[0]:016X}; case {t[:200]}"})
-    return {"violations": viol[:5], "disagreements": dis[:8], "evaluations": n, "validated": len(terms) if model is not None else 0, "distinct_nontrivial": len(set(terms)),
+    return {"violations": viol[:5], "disagreements": dis[:8], "evaluations": len(terms), "validated": len(terms) if model is not None else 0, "distinct_nontrivial": len(set(terms)),
             "notes": {"operator_calls": n, "genes_compared_bit_for_bit": len(terms), "operator_distribution": dist}}
